@@ -25,7 +25,42 @@ def nontrivial_audience(op, obs):
     return any(norm(h) == norm(n) for h in hay for n in needles)
 
 
-PURE_NONTRIVIAL = {"scope": nontrivial_scope, "audience": nontrivial_audience}
+def nontrivial_hmac(op, obs):
+    f = op.split("\t")
+    kind = f[1]
+    kv = {x.split("=", 1)[0]: x.split("=", 1)[1] for x in f[2:] if "=" in x}
+    if kind in ("validate", "pvalidate"):
+        if obs in ("ok", "signature_mismatch", "b64_error"):
+            return True   # decided at the MAC comparison or in the base64 layer
+        if obs == "err_short_secret":
+            keys = ([kv["g"]] if kv.get("g") else []) + (kv["rot"].split(",")[1:] if kv.get("rot") else [])
+            return len(keys) > 1 and len(keys[0]) >= 64   # short key reached through the loop, behind a usable one
+        return False
+    if kind in ("generate", "pgenerate"):
+        return obs.startswith("ok ")
+    if kind in ("signature", "psignature"):
+        return obs != "sig:"
+    return False
+
+
+def nontrivial_redirect(op, obs):
+    f = op.split("\t")
+    if obs.startswith("ok ") or obs == "true":
+        return True
+    if obs not in ("false", "err invalid_request"):
+        return False
+    items = lambda e: e.split(",")[1:]
+    if f[1] != "match":
+        return items(f[3])[0] == "1"
+    req = items(f[4])
+    if req[0] != "1":
+        return False
+    if f[2] == "":
+        return len(f) > 5
+    return any(r[0] == "1" and r[5].lower() == req[5].lower() for r in map(items, f[5:]))
+
+
+PURE_NONTRIVIAL = {"scope": nontrivial_scope, "audience": nontrivial_audience, "hmac": nontrivial_hmac, "redirect": nontrivial_redirect}
 
 HIST_RULE = ("D1 history driver: seeded histories (2-5 clients, code / hybrid / refresh / revoke / introspect / time-advance / registration-change operations, ~70% valid continuations and ~30% adversarial moves: replay of any generation, foreign or unauthenticated client, changed redirect_uri, verifier variants, mutated or foreign tokens, smuggled parameters, boundary time jumps) executed in-process against the real library over the reference store inside a synctest bubble and against the Lean model; compared per operation: outcome (+RFC error/status), storage-call log, full store dump; a history is non-trivial when an accepted credential exchange is followed by a later operation on one of its tokens; distinct = distinct op sequences")
 
@@ -60,6 +95,16 @@ PROPS = {
         rule=HIST_RULE,
         partial=["issuance rule is proved for the code flow; password and device flows are not yet in the model"],
     ),
+    "C06": dict(
+        modules=["Fosite.Props.C06"],
+        drivers=[dict(name="hmac", kind="pure")],
+        rule="D4 pure driver: tokens minted by the real HMACStrategy.Generate (deterministic crypto/rand stream; global secret lengths 0/1/16/31/32/33/64; entropy 0/16/32/64 [thorough: -1/31/33/100]; hasher default SHA-512/256 and sha256 [thorough: sha512, explicit sha512_256]; plain, ory_at_/ory_rt_/ory_ac_ prefixed and device strategies) and ~140 mutants of each (bit flips in either decoded part, character substitutions incl. non-canonical last characters, truncation/extension, swapping parts between two tokens and with a token minted under a foreign secret, padding / std / hex re-encodings, garbage, empty parts, multiple dots, whitespace/CR/LF/NUL insertion, case changes, every prefix variant) validated by the real Validate / Validate{AccessToken,RefreshToken,AuthorizeCode,DeviceCode} under 6 kinds of global secret x rotated lists = every ordered subset of {A32,B64,short16,minting key} (sampled in quick, exhaustive for two base tokens in thorough); Signature of every mutant; thorough adds every single-bit flip of both parts and 1e6 real mints checked for distinctness; compared: one error class per op, the exact minted token for generate, the exact signature string; non-trivial = decided at the MAC comparison or the base64 layer, or a short key reached behind a usable one, or a token minted, or a non-empty signature extracted; distinct = distinct op lines",
+        assumptions=["crypto enters as a parameter: the dec/enc/mac facts on every op line are computed with Go's encoding/base64 and crypto/hmac, independently of fosite, and the model decides from them",
+                     "theorems naming tampering use explicit hypotheses Lawful (base64 round trip), DotFree, MacCollisionFree, Unforgeable; shown jointly satisfiable by examples; never axioms",
+                     "'part' of a token = its decoded bytes; expiry checks before Enigma.Validate belong to C07"],
+        partial=["JWT access-token half (alg/key decision) is not modelled yet; lookup-then-validate at the endpoints is covered by the history model (C09 tampered_token_never_active, C02/C05 exact-copy facts) rather than here",
+                 "freshness of crypto/rand is the rand_fresh assumption; mint ops are supporting evidence only"],
+    ),
     "C08": dict(
         modules=["Fosite.Props.C08"],
         drivers=[dict(name="hist", kind="hist")],
@@ -71,6 +116,15 @@ PROPS = {
         drivers=[dict(name="hist", kind="hist")],
         rule=HIST_RULE,
         partial=["caller authentication of the HTTP introspection endpoint (NewIntrospectionRequest) is not yet in the model; refresh-token soundness/completeness mirror the access-token theorems and are covered by the refinement theorem"],
+    ),
+    "C11": dict(
+        modules=["Fosite.Props.C11"],
+        drivers=[dict(name="redirect", kind="pure")],
+        rule="D4 pure driver: MatchRedirectURIWithClientRedirectURIs / IsValidRedirectURI / IsRedirectURISecure(Strict) / IsLocalhost called directly; every op line carries the raw strings AND the components the real net/url, net.ParseIP and govalidator computed (the executor recomputes them and refuses tampered lines). Cases: bounded-exhaustive concatenations scheme x userinfo x host x port x path x query x fragment over a small (quick) / mid (thorough) alphabet; one- and two-component deviations of 8 base URIs over a large near-miss alphabet (case, percent-encoding, userinfo, ports, v4/v6/mapped loopback literals, look-alike hosts, dot-segments, query variants, fragments, relative, opaque, custom schemes); hand-picked strings (control characters, backslashes, embedded URLs); omitted redirect_uri against 0/1/2 registrations; seeded random registrations with requests derived by re-picking components and string mutations. Non-trivial = accepted, or rejected by the function's own logic on a near miss (the requested string parses and shares its case-folded host name with a parseable registered URI; redirect_uri omitted with something registered; unary functions: the URL parses). distinct = distinct op lines",
+        assumptions=["url.Parse, URL.String/Hostname/Port, net.ParseIP(..).IsLoopback and govalidator.IsRequestURL are parameters: their observed outputs are fed to the model per case",
+                     "ParserFaithful (IsRequestURL(u.String()) implies u.Scheme != \"\") is an explicit hypothesis of the two 'absolute' theorems and is checked by the executor on every case",
+                     "generated strings are valid UTF-8"],
+        partial=["the response-writer / placement half (WriteAuthorizeError, WriteAuthorizeResponse: Location observed at the recorder; error rendered directly when the URI does not qualify; code flow and PAR secure-redirect checks through the handlers) is not yet modelled; this covers the decision functions"],
     ),
     "C12": dict(
         modules=["Fosite.Props.C12", "Fosite.Props.C12b"],
